@@ -557,4 +557,123 @@ theorem started_stable_step (s : St) (a : Act) (j : Nat) (hj : (s.thr j).pc ≠ 
     cases hpc : (s.thr i).pc <;> simp only [step, step', runThread, hpc, St.set] <;>
       (repeat' split) <;> simp [hj] <;> grind
 
+/-! ### int64 arithmetic without overflow -/
+
+theorem toI64_small {u : Nat} (h : u < 2 ^ 63) : toI64 u = (u : Int) := by
+  unfold toI64 two64 two63
+  by_cases hc : u % 2 ^ 64 < 2 ^ 63 <;> simp only [hc, if_true, if_false] <;> omega
+
+theorem wrapI64_id {v : Int} (h1 : -(2 ^ 63 : Int) ≤ v) (h2 : v < 2 ^ 63) : wrapI64 v = v := by
+  unfold wrapI64 toI64 toU64 two64 two63
+  by_cases hc : (v % ((2 ^ 64 : Nat) : Int)).toNat % 2 ^ 64 < 2 ^ 63 <;> simp only [hc, if_true, if_false] <;> omega
+
+theorem extractPhysical_bound {ts : Nat} (h : ts < 2 ^ 64) :
+    0 ≤ extractPhysical ts ∧ extractPhysical ts < 2 ^ 46 := by
+  simp only [extractPhysical, shiftMul, Gen.physicalShiftBits]
+  have : ts / 2 ^ 18 < 2 ^ 46 := by omega
+  omega
+
+theorem started_stable_run (s : St) (acts : List Act) (j : Nat) (hj : (s.thr j).pc ≠ .idle) :
+    ((run s acts).thr j).pc ≠ .idle ∧ ((run s acts).thr j).startPd = (s.thr j).startPd ∧
+    ((run s acts).thr j).startClk = (s.thr j).startClk ∧ ((run s acts).thr j).rd = (s.thr j).rd := by
+  induction acts generalizing s with
+  | nil => exact ⟨hj, rfl, rfl, rfl⟩
+  | cons a as ih =>
+    obtain ⟨h1, h2, h3, h4⟩ := started_stable_step s a j hj
+    obtain ⟨g1, g2, g3, g4⟩ := ih (step s a) h1
+    exact ⟨g1, by simp only [run, List.foldl_cons] at g2 ⊢; omega,
+      by simp only [run, List.foldl_cons] at g3 ⊢; omega, by simp only [run, List.foldl_cons] at g4 ⊢; omega⟩
+
+/-! ### commit-wait loop -/
+
+theorem commitLoop_strict (w b : Nat) (script : List Nat) (n total ts r : Nat)
+    (h : commitLoop w b script n total ts = .ok r) : r > w := by
+  induction script generalizing n total ts with
+  | nil =>
+    unfold commitLoop at h
+    split at h
+    · cases h; assumption
+    · split at h <;> simp at h
+  | cons t rest ih =>
+    unfold commitLoop at h
+    split at h
+    · cases h; assumption
+    · split at h
+      · simp at h
+      · exact ih _ _ _ h
+
+/-! ### adaptive update interval -/
+
+/-- every (state, interval) a check proposes lies within the bounds -/
+def OkRes (conf : Int) (r : Option (AState × Int)) : Prop :=
+  ∀ st n, r = some (st, n) → min minAllowed conf ≤ n ∧ n ≤ conf
+
+theorem minAllowed_val : minAllowed = 500000000 := by
+  simp [minAllowed, Gen.minAllowedAdaptiveUpdateTSInterval]
+theorem shrinkPreserve_nonneg : 0 ≤ shrinkPreserve := by
+  simp [shrinkPreserve, Gen.adaptiveUpdateTSIntervalShrinkingPreserve]
+
+theorem checkUnadjustable_ok (conf : Int) : OkRes conf (checkUnadjustable conf) := by
+  intro st n h; unfold checkUnadjustable at h
+  split at h <;> simp at h
+  obtain ⟨_, rfl⟩ := h; omega
+
+theorem checkNormal_ok (conf cur : Int) (hok : intervalOk conf cur) : OkRes conf (checkNormal conf cur) := by
+  intro st n h; unfold checkNormal at h; unfold intervalOk at hok
+  split at h <;> simp at h
+  obtain ⟨_, rfl⟩ := h; omega
+
+theorem checkAdapting_ok (conf cur sinceShort required : Int) (hok : intervalOk conf cur) :
+    OkRes conf (checkAdapting conf cur sinceShort required) := by
+  intro st n h; unfold checkAdapting at h; unfold intervalOk at hok
+  have := shrinkPreserve_nonneg
+  split at h
+  · simp at h; obtain ⟨_, rfl⟩ := h; omega
+  · split at h <;> simp at h
+    obtain ⟨_, rfl⟩ := h; omega
+
+theorem checkRecovering_ok (conf cur sinceShort inc : Int) (hok : intervalOk conf cur) (hinc : 0 ≤ inc) :
+    OkRes conf (checkRecovering conf cur sinceShort inc) := by
+  intro st n h; unfold checkRecovering at h; unfold intervalOk at hok
+  split at h
+  · simp at h
+  · simp at h; obtain ⟨_, rfl⟩ := h
+    split <;> omega
+
+theorem orElse_ok {conf : Int} {a : Option (AState × Int)} {b : Unit → Option (AState × Int)}
+    (ha : OkRes conf a) (hb : OkRes conf (b ())) : OkRes conf (a.orElse b) := by
+  cases a with
+  | none => simpa [Option.orElse] using hb
+  | some x => simpa [Option.orElse] using ha
+
+theorem finishState_ok (conf : Int) (r : AState × Int) (h : min minAllowed conf ≤ r.2 ∧ r.2 ≤ conf) :
+    min minAllowed conf ≤ (finishState conf r).2 ∧ (finishState conf r).2 ≤ conf := by
+  obtain ⟨st, n⟩ := r
+  cases st <;> simp only [finishState] <;> try exact h
+  split
+  · rename_i r' hr
+    obtain ⟨st', n'⟩ := r'
+    have := checkNormal_ok conf n (by unfold intervalOk; exact h) st' n' hr
+    exact this
+  · exact h
+
+theorem nextUpdateInterval_ok (prev : AState) (conf cur sinceShort inc required : Int)
+    (hok : intervalOk conf cur) (hinc : 0 ≤ inc) :
+    intervalOk conf (nextUpdateInterval prev conf cur sinceShort inc required).2 := by
+  have hU := checkUnadjustable_ok conf
+  have hA := checkAdapting_ok conf cur sinceShort required hok
+  have hN := checkNormal_ok conf cur hok
+  have hR := checkRecovering_ok conf cur sinceShort inc hok hinc
+  unfold nextUpdateInterval
+  have key : ∀ first : Option (AState × Int), OkRes conf first →
+      intervalOk conf (match first with | some r => finishState conf r | none => (prev, cur)).2 := by
+    intro first hf
+    cases first with
+    | none => exact hok
+    | some r => exact finishState_ok conf r (hf r.1 r.2 rfl)
+  apply key
+  split
+  · exact orElse_ok hU hA
+  · exact orElse_ok hU (orElse_ok hA (orElse_ok hN hR))
+
 end CGV.Oracle
